@@ -10,7 +10,8 @@ Regenerates the encoding from /repo/pane/field.py (or $VERIF_REPO) on every run:
     z3 formula; every feasible path of the real function bodies is explored; per path the NEGATED property is asserted and
     must be unsat:  P1 canonical spelling, P2 idempotent, P3 back to snake + style pairs, P5 refusal of unsplittable names;
     P4 (injectivity) follows from P3 inside the same bound (g(f(n)) = n for all n  =>  f injective) and is also checked
-    directly on pairs of short names;
+    directly on pairs of short names, together with P6: renaming two names one after the other and back, in one process
+    state, still recovers both (no state is carried from one call to the next);
  2. every sat answer is turned into a concrete name and replayed on the real rename_field before it is reported.
 """
 import argparse
@@ -83,6 +84,16 @@ def validate_models():
             raise HarnessError(f"primitive model mismatch (capitalize/replace) on {s!r}")
         n += 1
     import re
+    import itertools as _it
+    for pat in (r'^[_-]|[_-]$|__|--', r'[A-Z]+', r'(ab)+c', r'[^a-z]', r'^a.b$'):
+        for L in range(0, 4):
+            for tup in _it.product('ab_-AZ', repeat=L):
+                txt = ''.join(tup)
+                for (kw, ref) in ((dict(), re.search), (dict(anchored=True), re.match), (dict(anchored=True, full=True), re.fullmatch)):
+                    out = list(P.explore(I, [], lambda: P.m_re_search(pat, P.lift(txt), **kw)))
+                    if len(out) != 1 or bool(out[0][1][1]) != bool(ref(pat, txt)):
+                        raise HarnessError(f"regex model mismatch {pat!r} on {txt!r}")
+                    n += 1
     for pat in (r'[_-]', r'([A-Z])'):
         for s in strs[:400]:
             out = list(P.explore(I, [], lambda: P.m_re_split(pat, P.lift(s))))
@@ -104,7 +115,12 @@ def concrete_rename(I, name, style):
 
 
 def real_rename(name, style):
-    from pane.field import rename_field
+    # the real module is re-executed first: the interpreter models one call in a fresh module state, so the reference must
+    # not carry state (e.g. a memo) from the previous test vector either; state carried between calls is P6's subject
+    import importlib
+    import pane.field                      # (pane.field the attribute is the field() function: go through sys.modules)
+    mod = importlib.reload(sys.modules['pane.field'])
+    rename_field = mod.rename_field
     try:
         return ('ok', rename_field(name, style))
     except Exception as e:
@@ -272,20 +288,29 @@ def work_pairs(args):
     t0 = time.time()
     for st in ('camel', 'pascal'):
         def run():
-            return (sym_rename(I, P.SStr(a), st), sym_rename(I, P.SStr(b), st))
+            x = sym_rename(I, P.SStr(a), st)
+            y = sym_rename(I, P.SStr(b), st)
+            # ... and, still in the same process state, both come back to what they were (no state carried between calls)
+            return (x, y, sym_rename(I, x, 'snake'), sym_rename(I, y, 'snake'))
         for s, (kind, val), q in P.explore(I, snake_pre(a) + snake_pre(b) + [differ], run):
             stats['paths'] += 1
             stats['queries'] += q
             if kind == 'raise':
                 continue
-            (x, y) = val
+            (x, y, bx, by) = val
             eq = P.seq_eq(x, y)
-            if eq is False:
-                continue
-            m = check_unsat(s, z3.BoolVal(True) if eq is True else eq.e, stats)
-            if m is not None:
-                stats['viol'].append(dict(L=(L1, L2), style=st, clause='P4 injective', name=to_str(m, P.SStr(a)),
-                                          name2=to_str(m, P.SStr(b))))
+            if eq is not False:
+                m = check_unsat(s, z3.BoolVal(True) if eq is True else eq.e, stats)
+                if m is not None:
+                    stats['viol'].append(dict(L=(L1, L2), style=st, clause='P4 injective', name=to_str(m, P.SStr(a)),
+                                              name2=to_str(m, P.SStr(b))))
+            for (back, orig) in ((bx, a), (by, b)):
+                f = neq_formula(back, P.SStr(orig))
+                if f is not None:
+                    m = check_unsat(s, f, stats)
+                    if m is not None:
+                        stats['viol'].append(dict(L=(L1, L2), style=st, clause='P6 sequence', name=to_str(m, P.SStr(a)),
+                                                  name2=to_str(m, P.SStr(b))))
     stats['wall'] = time.time() - t0
     return stats
 
@@ -318,6 +343,10 @@ def replay(v):
             return rename_field(rename_field(n, st), b) != rename_field(n, b)
         if c == 'P4 injective':
             return rename_field(n, st) == rename_field(v['name2'], st)
+        if c == 'P6 sequence':
+            x = rename_field(n, st)
+            y = rename_field(v['name2'], st)
+            return rename_field(x, 'snake') != n or rename_field(y, 'snake') != v['name2']
         if c == 'P5 refusal':
             try:
                 rename_field(n, st)
